@@ -374,4 +374,38 @@ example : responseOK (some " Text/HTML;x".toList) [] 1 0 = false := by decide
 example : failureText 400 "Bad Request".toList "invalid netblock <img src=x>".toList =
     "400 Bad Request invalid netblock <img src=x>\n".toList := by decide
 
+/-! ## round 3: the redirect body, and why an unescaped operand is never acceptable -/
+
+/-- constant parts of the body `net/http.Redirect` writes for GET/HEAD requests:
+`"<a href=\"" + htmlEscape(url) + "\">" + StatusText(code) + "</a>.\n"` (up to the final
+newline); `htmlEscape` uses the same five replacements as `html.EscapeString` -/
+def redirectPrefix : List Char := "<a href=\"".toList
+def redirectSuffix : List Char := "\">Found</a>.".toList
+
+/-- **The redirect page of the OpenID Connect authorization endpoint is inert.**  The
+redirect_uri (any path below an allowed domain), the code and the state all travel in the URL
+handed to `http.Redirect`; for *every* URL the body is one `a` start tag with the single
+attribute `href`, followed by the constant text — the structure never depends on the URL. -/
+theorem c18_redirect_body (u : List Char) :
+    eraseOut (tokenizeStartTag (redirectPrefix ++ esc u ++ redirectSuffix)) =
+      some (⟨"a".toList, [⟨"href".toList, []⟩], false⟩, "Found</a>.".toList) := by
+  have hst : stateAfter redirectPrefix =
+      some ⟨.valueDQ, "a".toList, [⟨"ferh".toList, []⟩]⟩ := by decide
+  rw [site_structure redirectPrefix redirectSuffix (esc u) _ (by decide) (by decide) hst rfl
+    (c18_esc_inert u).1]
+  decide
+
+/-- **An unescaped operand is never acceptable, whatever vetted it**: a URL that passes every
+check of `CanRedirectToURL` (https, allowed host, no query, no `..`) but is placed raw in a
+double-quoted attribute adds attributes of its own (hand-written `action="%s"`), and Go's `%q`
+quoting is no substitute for HTML escaping: it leaves `<` and `>` alone and turns `"` into `\"`,
+which still ends the attribute value. -/
+theorem c18_unescaped_operand_counterexample :
+    (tokenizeStartTag "<form method=\"post\" action=\"https://app.example.com/cb\" onfocus=\"x\">".toList).map
+        (fun p => p.1.attrs.map (·.name)) =
+      some ["method".toList, "action".toList, "onfocus".toList] ∧
+    (tokenizeStartTag "<small title=\"CA \\\"><img src=x>\">".toList).map (fun p => p.2) =
+      some "<img src=x>\">".toList := by
+  decide
+
 end KM.Html
